@@ -146,7 +146,9 @@ def _collect(res, files, label, remove=True):
                 problems.append((f"{label}: {line[:1500]}", behaviour))
         if summary:
             total += int(summary["lines"])
-        elif rc not in (0, 1):
+        else:
+            # no SUMMARY line: the harness did not finish (a sanitizer abort exits with code 1 and may print nothing
+            # on stdout), whatever the exit code
             if not any(p[0].startswith(f"{label}: CRASH") for p in problems):
                 problems.append((f"{label}: harness died rc={rc}: {out[-1500:]}", None))
         if remove:
